@@ -191,7 +191,8 @@ class Run:
         self.e.subscribe_to_order_events(self.on_order_event)
         self.d.subscribe_all(self.post_sniffer)
         for job in sc.get("jobs", []):
-            when = T(job["t"]) + (datetime.timedelta(minutes=30) if job.get("half") else datetime.timedelta(0))
+            when = T(job["t"]) + (datetime.timedelta(minutes=30) if job.get("half") else datetime.timedelta(0)) + \
+                datetime.timedelta(microseconds=job.get("us", 0))
             self.d.schedule(when, self._mk_job(job["action"]))
 
     async def run(self):
@@ -966,6 +967,12 @@ class Run:
         # closure causes
         if prev is None:
             return
+        # greedy rule: exactly one order changed in the interval and it is an auto-repay order that closed (also when
+        # no loan was closed at all: an auto-repay order that traded and closed must repay what it can afford)
+        changed = [i for i, o in snap.orders.items() if i in prev.orders and _ostate(o) != _ostate(prev.orders[i])]
+        new_orders = [i for i in snap.orders if i not in prev.orders]
+        if len(changed) == 1 and not new_orders and changed[0] in self.meta:
+            self.check_greedy(changed[0], prev, snap, interval)
         closed_now = [i for i, lo in snap.loans.items() if not lo.is_open and i in prev.loans and prev.loans[i].is_open]
         if not closed_now:
             return
@@ -993,11 +1000,6 @@ class Run:
                 self.v("C11", "loan_closed_without_cause",
                        f"loan {lid} ({lo.borrowed_amount} {lo.borrowed_symbol}) closed during {interval[:2]} "
                        f"(orders closed in the interval: {[(self.meta[i]['kind'], self.meta[i]['auto_repay']) for i in orders_closed]})")
-        # greedy rule: exactly one order changed in the interval and it is an auto-repay order that closed
-        changed = [i for i, o in snap.orders.items() if i in prev.orders and _ostate(o) != _ostate(prev.orders[i])]
-        new_orders = [i for i in snap.orders if i not in prev.orders]
-        if len(changed) == 1 and not new_orders and changed[0] in self.meta:
-            self.check_greedy(changed[0], prev, snap, interval)
 
     def check_greedy(self, oid: str, prev: Snap, snap: Snap, interval: tuple) -> None:
         m = self.meta[oid]
